@@ -1,7 +1,7 @@
 (* The executed instance: every model over the abstract ring/field is run at Qc
    (canonical rationals, Leibniz equality). *)
 From Coq Require Import QArith Qcanon Qcabs.
-From Raptor Require Import Base.Sums Sparse.Defs.
+From Raptor Require Import Base.Sums Sparse.Defs Sparse.Block.
 
 Local Open Scope Qc_scope.
 
@@ -43,3 +43,8 @@ Definition q_csc_spmv_append_neg := csc_spmv_append_neg Qc 0 Qcmult Qcminus.
 Definition q_csc_spmv_append_neg_T := csc_spmv_append_neg_T Qc 0 Qcmult Qcminus.
 Definition q_csc_residual := csc_residual Qc 0 Qcmult Qcminus.
 Definition q_csc_mult_T := csc_mult_T Qc 0 Qcplus Qcmult.
+
+(* block formats *)
+Definition Qc_big (q : Qc) : bool := match Qccompare (Qcabs q) zero_tol with Gt => true | _ => false end.
+Definition q_bcoo_expand := bcoo_expand (F:=Qc) 0.
+Definition q_bsr_to_csr := bsr_to_csr (F:=Qc) 0 Qc_big.
